@@ -77,6 +77,15 @@ CLAIMED.update({
 
 NOT_YET = {}
 
+CLAIMED.update({
+    "C07": ("static index-safety analysis: compiler bounds-check-elimination report + a linear-arithmetic facts engine over SSA (guards, Houdini loop invariants, call-site preconditions, callee summaries, verified struct invariants, Fourier-Motzkin entailment), "
+            "plus reachability of explicit panics and a UTF-8 taint rule",
+            "For every function reachable from the per-connection / per-record entry points (construction excluded): every index and slice expression is proved in bounds for all inputs (compiler prove pass, or the facts engine, or a reviewed entry with its reason: 16 of 320 sites), "
+            "under stated contracts that are each checked on the producer side (schema-sized fields, LogRewriter results, io.Reader/write(2) counts, verified configuration values); every explicit panic/fatal reachable per record is a reviewed internal invariant; "
+            "record bytes reach Prometheus label values only through strings.ToValidUTF8; the serializer checks its remaining buffer before every field; nothing recovers from panics. "
+            "Not decided: liveness of the listener after bad input, memory exhaustion, panics inside third-party libraries, integer overflow of offsets.", "§4 C07"),
+})
+
 NOT_APPLICABLE = {
     "C08": "framing independent of TCP segmentation is an extensional equality between the record sequence under every fragmentation and a reference framer; its truth lives in index arithmetic over runtime offsets, no structural clause short of re-deriving the algorithm is a necessary condition (index SAFETY of multiLineReader is decided under C07)",
     "C14": "completeness/exactness of e-mail redaction is a language-recognition property of a hand-written scanner over all texts (value-level); static analysis in reach decides only its index safety (under C07)",
